@@ -74,6 +74,7 @@ func main() {
 	var spec struct {
 		Ops     []opDesc `json:"ops"`
 		Schemes []scheme `json:"schemes"`
+		Variant string   `json:"variant"`
 	}
 	if err := json.Unmarshal([]byte(api.VerifSpecJSON), &spec); err != nil {
 		drv.Fatal("spec: %v", err)
@@ -84,7 +85,7 @@ func main() {
 		handled = true
 		return next(req)
 	}
-	srv, err := api.NewServer(api.UnimplementedHandler{}, sec, api.WithMiddleware(mw))
+	srv, err := api.NewServer(api.VerifHandler{}, sec, api.WithMiddleware(mw))
 	if err != nil {
 		drv.Fatal("NewServer: %v", err)
 	}
